@@ -22,7 +22,8 @@ from common import Outcome
 V1 = "/rnacos/api/console"
 V2 = "/rnacos/api/console/v2"
 TAGS = ["D", "A", "B", "C"]
-NSID = {"D": "", "A": "c18a", "B": "c18b", "C": "c18c"}        # data-bearing namespaces
+NSID = {"D": "", "A": "c18a", "B": "c18b", "C": "Public"}      # data-bearing namespaces; C is a real namespace of its own whose id
+                                                                # equals the default namespace's name ignoring case
 TWIN = {"A": "c18a2", "B": "c18b2", "C": "c18c2"}             # empty twins: targets of namespace add / remove
 NM = {"D": "zzndflt", "A": "zznalfa", "B": "zznbrvo", "C": "zzncrly"}    # markers in item NAMES (listings)
 SC = {"D": "qqsdflt", "A": "qqsalfa", "B": "qqsbrvo", "C": "qqscrly"}    # markers in item CONTENTS (reads)
@@ -701,7 +702,10 @@ class Shard:
                     self.run_case(u, o, t, sp, nsv)
 
     # ---- cross-namespace references: a request addressed to an ALLOWED namespace `a` that reaches into namespace `b`
-    PAIR_OPS = ("v2/mcp-server/add-foreign-tool", "v2/mcp-server/update-foreign-id", "v2/mcp-server/import-foreign-key")
+    PAIR_OPS = ("v2/mcp-server/add-foreign-tool", "v2/mcp-server/update-foreign-id", "v2/mcp-server/import-foreign-key",
+                # one request that names the namespace in two places: the `tenant` header (what the handler checks) says `a`, a
+                # multipart text field `tenant` next to the file says `b`
+                "v1/config/import-foreign-tenant-field", "v2/config/import-foreign-tenant-field")
 
     def run_pair(self, u, op_id, a, b):
         shape = u["shape"]
@@ -715,7 +719,11 @@ class Shard:
             reqs.append(spec)
             resps.append(self.send(u["token"], spec))
             return resps[-1]
-        if op_id.endswith("add-foreign-tool"):
+        fam = "config" if "/config/" in op_id else "mcp"
+        if op_id.endswith("import-foreign-tenant-field"):
+            z = make_zip([(DG + "/pairimp%d-%s" % (n, NM[a]), "imported by restricted user, header says %s" % a)])
+            go(R("POST", (V1 if op_id.startswith("v1/") else V2) + "/config/import", h={"tenant": NSID[a]}, mp=({"tenant": NSID[b]}, "imp.zip", z)))
+        elif op_id.endswith("add-foreign-tool"):
             r = go(R("POST", sv + "/add", j={"namespace": nns(a), "name": "pair%d-%s" % (n, NM[a]), "description": "pair", "authKeys": ["k%d" % n],
                                             "tools": [{"toolName": "tool1-" + NM[b], "namespace": nns(b), "group": "grp-" + NM[b]}]}))
             sid = (r.json() or {}).get("data") if not refused(r) else None
@@ -730,7 +738,7 @@ class Shard:
         text = "\n".join(body_text(r) for r in resps)
         rtext = " ".join(spec_text(x) for x in reqs)
         leaks = [m for x in dis for m in (NM[x], SC[x]) if m in text and m not in rtext]
-        ch, cur = self.changed_tags("mcp", sorted({a, b}))
+        ch, cur = self.changed_tags(fam, sorted({a, b}))
         case = {"user": u["name"], "role": u["role"], "shape": shape.name, "op": op_id, "ns": b, "spelling": "via-allowed-ns", "kind": "write",
                 "status": resps[0].status, "refused": refused(resps[0]), "leaks": leaks, "list_all": True, "allowed": a == b, "pages": len(resps),
                 "request": {k: v for k, v in reqs[0].items() if v and k != "mp"}, "response": resps[-1].body[:300].decode("utf-8", "replace"),
@@ -741,8 +749,8 @@ class Shard:
         case["worked"] = (SC[b] in text) if op_id.endswith("add-foreign-tool") else (b in ch)
         if ch:
             x = (case["changed_disallowed"] or ch)[0]
-            case["diff"] = diff_text(self.base["mcp"][x], cur[x])
-            self.repair("mcp", ch, cur)
+            case["diff"] = diff_text(self.base[fam][x], cur[x])
+            self.repair(fam, ch, cur)
         self.cases.append(case)
 
     def sweep_pairs(self, u):
